@@ -88,13 +88,19 @@ def run(c, chk):
         if moves:
             m = moves[0]
             d, s_, ln = m.args[0], m.args[1], m.args[2]
-            okd = d[0] == 'idx' and sym.render(d[1]) == 'opt->values' and sym.render(d[2]) == 'index'
-            oks = s_[0] == 'idx' and sym.render(s_[1]) == 'opt->values' and sym.render(s_[2]) == '(index add 1)'
+            # positions as "array + offset" (values[index + 1], (values + index) + 1 and &slot[1] are the same place)
+            from .. import bufsize as _bs
+            IDX = _bs.Lin(0, {('p', 'index'): 1})
+            bd, od = _bs.split_ptr(d)
+            bs_, os_ = _bs.split_ptr(s_)
+            okd = sym.render(bd) == 'opt->values' and od is not None and od.eq(IDX)
+            oks = sym.render(bs_) == 'opt->values' and os_ is not None and os_.eq(IDX.add(_bs.Lin(1)))
             okl = False
-            if ln[0] == 'bin' and ln[1] == 'mul':
-                k, other = (ln[2], ln[3]) if sym.is_const(ln[2]) else (ln[3], ln[2])
-                r_ = sym.render(other)
-                okl = k == ('c', 8) and 'sub index' in r_ and 'add -1' in r_
+            ll = _bs.lin(ln)
+            if ll is not None and ll.const == -8 and ll.terms.get(('p', 'index')) == -8:
+                rest = [t for t in ll.terms if t != ('p', 'index')]
+                okl = len(rest) == 1 and ll.terms[rest[0]] == 8 and ((rest[0][0] == 'call' and rest[0][1] == 'cfg_opt_size') or
+                                                                      (sym.norm(rest[0])[0] == 'ld' and sym.norm(rest[0])[1][0] == 'fld' and sym.norm(rest[0])[1][3] == 'nvalues'))
             if not (okd and oks and okl):
                 badrm = (p, 'the tail move is memmove(%s, %s, %s), expected (&values[index], &values[index+1], 8*(n-index-1))' % (sym.render(d), sym.render(s_), sym.render(ln)))
                 break
@@ -147,7 +153,8 @@ def run(c, chk):
                  'cfg_setopt() no longer compares an incoming title with the existing ones under the context\'s CFGF_NOCASE (found: %s): '
                  'in a case-insensitive context a repeated title in other letter case is appended instead of replacing the section'
                  % (sorted(str(x) for x in sites.get('cfg_setopt', [])) or 'no comparison of its own'))
-    words = set(w for ws in title_sites.combos.values() for w in ws)
+    # per function: the flag words that can switch case folding on (one test of the or-ed words, or one test per word)
+    words = set('+'.join(sorted(str(x) for x in ws)) if None not in ws else None for ws in sites.values())
     if len(sites) < 2:
         raise report.Broken('title comparison sites not found (%s)' % sorted(sites))
     if len(words) == 1 and None not in words:
